@@ -124,6 +124,13 @@ def run(prop, tier, seed, replay):
             w = nc.sum_weights.sample_patch_sum()
             for b in range(B):
                 impl += [c.data[b], *c.samples[:, b], w.data[b], *w.samples[:, b]]
+            c = nc.counts.sample_patch_sum()      # second call: must not depend on the first
+            w = nc.sum_weights.sample_patch_sum()
+            impl2 = []
+            for b in range(B):
+                impl2 += [c.data[b], *c.samples[:, b], w.data[b], *w.samples[:, b]]
+            if not np.array_equal(np.array(impl), np.array(impl2), equal_nan=True):
+                impl = impl2
             if N >= 2 and len(set(nc.counts.counts.ravel()) - {0.0}) >= 2:
                 nontriv = reqs[ci]
             ck.case({"kind": "jk", "N": N, "B": B, "auto": bool(nc.auto),
@@ -165,6 +172,16 @@ def run(prop, tier, seed, replay):
                     sc = sum(abs(to_frac(v)) for v in tv.values() if math.isfinite(v))
                     scales.append(sc / abs(to_frac(den)) if math.isfinite(den) and den != 0 else Fraction(1))
             d_spec = cmp_ulp(impl, s, 16, scales)
+            if not d_spec:
+                # every later use of the same container must give the same samples (no hidden state)
+                cd2 = cf.sample()
+                if not (np.array_equal(cd.data, cd2.data, equal_nan=True)
+                        and np.array_equal(cd.samples, cd2.samples, equal_nan=True)):
+                    impl2 = []
+                    for b in range(B):
+                        impl2 += [cd2.data[b], *cd2.samples[:, b]]
+                    d_spec = "second sample() of the same container: " + str(cmp_ulp(impl2, s, 16, scales))
+                    impl = impl2
             if d_spec:
                 ck.add_violation(f"CorrFunc.sample differs from the statistic with the patch removed: {d_spec}",
                                  {"kind": "cf", "request": reqs[ci], "impl": [float(x) for x in impl]})
@@ -177,6 +194,14 @@ def run(prop, tier, seed, replay):
             if np.all(np.isfinite(smp)):
                 cov_reqs.append(f"cov{ci} cov {N} {B} " + " ".join(fr(x) for x in smp.ravel()))
                 cov_cases.append((cd, smp))
+            # stratum: samples that are large compared with their scatter (histogram-like counts)
+            if ci % 4 == 0 and N >= 2:
+                from yaw.correlation.corrdata import CorrData
+                base = rng.choice([1e5, 3e7, 5e7, 2.0 ** 40])
+                big = np.array([[base + rng.randrange(-4, 5) for _ in range(B)] for _ in range(N)], dtype=float)
+                cdb = CorrData(case["binning"], big.mean(axis=0), big)
+                cov_reqs.append(f"covbig{ci} cov {N} {B} " + " ".join(fr(x) for x in big.ravel()))
+                cov_cases.append((cdb, big))
         else:
             counts = case["counts"]
             smp = resample_jackknife(counts)
@@ -207,8 +232,11 @@ def run(prop, tier, seed, replay):
             if np.any(np.isfinite(cov)):
                 ck.add_violation("single-sample covariance is not NaN", {"kind": "cov", "request": cov_reqs[i]})
             continue
+        # two-pass covariance: error ~ eps * |x| * |x - mean| per term (not eps * |x|^2)
         mx = max(abs(to_frac(x)) for x in smp.ravel())
-        scale = [mx * mx * n] * (B * B)
+        means = [sum(to_frac(x) for x in smp[:, p]) / n for p in range(B)]
+        dv = max(abs(to_frac(smp[k, p]) - means[p]) for k in range(n) for p in range(B))
+        scale = [(mx * dv + dv * dv) * n] * (B * B)
         d_spec = cmp_ulp(list(cov.ravel()), flat_vals(scov[i]), 64 * n, scale)
         if d_spec:
             ck.add_violation(f"covariance is not the delete-one jackknife covariance: {d_spec}",
@@ -220,7 +248,7 @@ def run(prop, tier, seed, replay):
         if not np.array_equal(cov, cov.T):
             ck.add_violation("covariance not symmetric", {"kind": "cov", "request": cov_reqs[i]})
         ev = np.linalg.eigvalsh(cov)
-        if ev.min() < -1e-9 * max(1.0, abs(ev).max()):
+        if ev.min() < -1e-9 * max(float(dv * dv), abs(ev).max()):
             ck.add_violation("covariance not positive semi-definite", {"kind": "cov", "request": cov_reqs[i]})
         err = cd.error
         if not np.allclose(err, np.sqrt(np.diag(cov)), rtol=1e-15, atol=0, equal_nan=True):
